@@ -36,12 +36,14 @@ type call struct {
 }
 
 type world struct {
-	mu      sync.Mutex
-	script  map[string][]bool // host -> outcome of its n-th call (default: ok)
-	ncalls  map[string]int
-	events  []string // "S n" shuffle, "V shard ok", "C host ok"
-	calls   []call
-	payload *storeapi.BulkRequest
+	mu       sync.Mutex
+	script   map[string][]bool // host -> outcome of its n-th call (default: ok)
+	hang     map[string]int    // host -> 1-based index of the call that blocks until the request context is done
+	ncalls   map[string]int
+	events   []string // "S n" shuffle, "V shard ok", "C host ok"
+	calls    []call
+	payload  *storeapi.BulkRequest
+	panicked string
 }
 
 type fake struct {
@@ -53,13 +55,23 @@ type fake struct {
 func (f *fake) Bulk(ctx context.Context, in *storeapi.BulkRequest, _ ...grpc.CallOption) (*emptypb.Empty, error) {
 	w := f.w
 	w.mu.Lock()
-	defer w.mu.Unlock()
 	n := w.ncalls[f.host]
 	w.ncalls[f.host] = n + 1
 	ok := true
 	if s := w.script[f.host]; n < len(s) {
 		ok = s[n]
 	}
+	hang := w.hang[f.host] == n+1
+	w.mu.Unlock()
+	if hang {
+		<-ctx.Done() // a replica that does not answer before the request deadline
+		ok = false
+	}
+	if ctx.Err() != nil {
+		ok = false // a real gRPC call on a finished context fails
+	}
+	w.mu.Lock()
+	defer w.mu.Unlock()
 	same := in.Count == w.payload.Count && bytes.Equal(in.Docs, w.payload.Docs) && bytes.Equal(in.Metas, w.payload.Metas)
 	w.calls = append(w.calls, call{f.host, ok, same})
 	w.events = append(w.events, fmt.Sprintf("C %s %s", f.host, vh.B(ok)))
@@ -73,6 +85,8 @@ type tcase struct {
 	coldS, coldR, hotS, hotR int
 	perms                    [][]int           // consumed by successive shuffles
 	script                   map[string][]bool // host -> outcomes
+	deadlineMs               int               // > 0: the request context carries this deadline
+	hang                     map[string]int    // host -> 1-based call index that blocks until the deadline
 }
 
 func (c tcase) String() string {
@@ -94,6 +108,18 @@ func (c tcase) String() string {
 			sb.WriteString(vh.B(b))
 		}
 	}
+	if c.deadlineMs > 0 {
+		fmt.Fprintf(&sb, " deadline=%d hang=", c.deadlineMs)
+		for i, h := range vh.SortedKeys(c.hang) {
+			if i > 0 {
+				sb.WriteByte(';')
+			}
+			fmt.Fprintf(&sb, "%s:%d", h, c.hang[h])
+		}
+		if len(c.hang) == 0 {
+			sb.WriteByte('-')
+		}
+	}
 	return sb.String()
 }
 
@@ -113,6 +139,18 @@ func parseCase(line string) (tcase, error) {
 			}
 		}
 		c.perms = append(c.perms, perm)
+	}
+	if i := strings.Index(line, " deadline="); i >= 0 {
+		var hang string
+		fmt.Sscanf(line[i:], " deadline=%d hang=%s", &c.deadlineMs, &hang)
+		c.hang = map[string]int{}
+		for _, h := range strings.Split(hang, ";") {
+			if kv := strings.SplitN(h, ":", 2); len(kv) == 2 {
+				var n int
+				fmt.Sscanf(kv[1], "%d", &n)
+				c.hang[kv[0]] = n
+			}
+		}
 	}
 	c.script = map[string][]bool{}
 	for _, h := range strings.Split(script, ";") {
@@ -153,7 +191,7 @@ var breakerCfg = circuitbreaker.Config{
 
 // run executes one case on the real client and returns (acked, events).
 func run(c tcase) (bool, *world) {
-	w := &world{script: c.script, ncalls: map[string]int{}}
+	w := &world{script: c.script, hang: c.hang, ncalls: map[string]int{}}
 	clients := map[string]storeapi.StoreApiClient{}
 	for _, t := range []struct {
 		tier string
@@ -196,7 +234,22 @@ func run(c tcase) (bool, *world) {
 	docs := []byte(fmt.Sprintf("docs-%d-%d", c.hotS, len(c.perms)))
 	metas := []byte("metas-" + vh.Hash(c.String()))
 	w.payload = &storeapi.BulkRequest{Count: 3, Docs: docs, Metas: metas}
-	err := cl.StoreDocuments(context.Background(), 3, docs, metas)
+	ctx := context.Background()
+	if c.deadlineMs > 0 {
+		var cancel context.CancelFunc
+		ctx, cancel = context.WithTimeout(ctx, time.Duration(c.deadlineMs)*time.Millisecond)
+		defer cancel()
+	}
+	var err error
+	func() {
+		defer func() {
+			if r := recover(); r != nil {
+				w.panicked = fmt.Sprint(r)
+				err = errors.New("panic")
+			}
+		}()
+		err = cl.StoreDocuments(ctx, 3, docs, metas)
+	}()
 	return err == nil, w
 }
 
@@ -431,10 +484,35 @@ func main() {
 		for i := 0; i < n; i++ {
 			cases = append(cases, genCase(rng, 3, 3))
 		}
+		// request deadline landing between attempts: one replica does not answer its k-th call before the deadline,
+		// later attempts run on a finished context (every call on it fails; a skipped call must not count as written)
+		for _, top := range [][4]int{{0, 0, 1, 1}, {0, 0, 1, 2}, {1, 1, 1, 2}, {0, 0, 2, 2}} {
+			for _, hangHost := range []string{hostName("h", 0, 0), hostName("h", 0, top[3]-1)} {
+				c := tcase{coldS: top[0], coldR: top[1], hotS: top[2], hotR: top[3], script: map[string][]bool{}, deadlineMs: 40, hang: map[string]int{hangHost: 1}}
+				for k := 0; k < 6; k++ {
+					c.perms = append(c.perms, rng.Perm(max(top[2], 1)))
+				}
+				cases = append(cases, c)
+			}
+		}
+		for i := 0; i < o.Pick(12, 200); i++ {
+			c := genCase(rng, 2, 3)
+			c.deadlineMs = 30 + rng.Intn(40)
+			c.hang = map[string]int{hostName("h", rng.Intn(c.hotS), rng.Intn(c.hotR)): 1 + rng.Intn(2)}
+			cases = append(cases, c)
+		}
 	}
 	for _, c := range cases {
 		acked, w := run(c)
+		if w.panicked != "" {
+			orc.Case(c.String(), true, "panicked=1")
+			rep.Violate(vh.Violation{Site: "proxy/bulk/seqdb_client.go:StoreDocuments", Class: "client-panics", What: "StoreDocuments panicked: " + w.panicked, Replay: []string{c.String()}})
+			continue
+		}
 		req, impl, tags := toModel(c, acked, w)
+		if c.deadlineMs > 0 {
+			tags = append(tags, "deadline=1")
+		}
 		anyFail := false
 		for _, cl := range w.calls {
 			if !cl.ok {
